@@ -6,3 +6,18 @@ claim("C14",
   "CriteriaValuesRange prefers the declared range; the threshold-list source validates and iterates its list. Lemmas: each rule is strictly monotone inside its domain and decreases a stated integer measure (finite series). "
   "Not decided: that main.go wires increasing sources to aspect elimination and decreasing ones to satisfaction (configuration, outside /repo/lib); behaviour in IEEE arithmetic when a level lands exactly on a bound.",
   "The link between a manager and its update closure is through a function-valued field (assumed: interface method contract CoefficientManager.UpdateValue is an uninterpreted function of the manager).")
+
+claim("C16",
+  "Proved for all inputs (unbounded, loop invariants): reverseCriteriaForEachAlternative gives every known alternative (considered and not) value max+min-v on each selected criterion, leaves every other key of every alternative's value map unchanged, builds fresh maps and a fresh slice; "
+  "getCriteriaToReverse takes each criterion's range from the declared valuesRange if present, otherwise the range observed over all current alternatives; UpdateAlternatives/FetchAlternative re-associate by id (first match) and keep order; "
+  "PreferenceReversal.Apply: criteria list and method parameters are the same objects, considered/not-considered keep ids and order and are exactly 'mirrored by the report' (the report's ids and ranges are the ones applied); the split takes Left = first clamp(floor(n*ratio)) criteria of the ordering. "
+  "Lemmas: mirroring maps [min,max] onto itself, swaps min and max, and is an involution. "
+  "Not decided: that alternativesValues in the report equal the assigned values (report shape only); IEEE last-bit effects of max+min-v.",
+  "Requires distinct criterion ids and distinct alternative ids (established by request validation, not re-proved here). The ordering resolver is used through its interface contract (permutation of the criteria); weakestByProbability's permutation property is a trusted contract.")
+
+claim("C17",
+  "Proved for all inputs: the two ratio functions return value resp. multiplier*exp(alpha*queryNumber)-multiplier (exp uninterpreted); blurCriteriaValues (two nested loops, proved with invariants) gives every alternative a fresh value map over exactly the criteria, keeps ids and order, and each new value is BoundValue(w) for some w with |w - v| <= |f*v| (stated as the interval between the boundings of v-|f v| and v+|f v|, which is equivalent because bounding is monotone); "
+  "BoundValue = raise to 0 if negatives are disallowed, then clamp into the range scaled about its centre when allowedValuesRangeScaling>0 (each helper has its formula as postcondition; scaling 0 is rejected); "
+  "Fatigue.Apply hands criteria and method parameters on as the same objects, keeps the considered/not-considered split, and its report aliases exactly the slices handed on. Lemma: |blurred-v| <= |f v| for u in [0,1) and both signs, and f=0 leaves v unchanged. "
+  "Not decided: that the sign takes both directions over seeds and the distribution of u (properties of math/rand); which stream position feeds which value.",
+  "The value and sign generators are function-typed parameters assumed to return values in [0,1) (contract of utils.RandomBasedSeedValueGenerator / math/rand); parseFatigueFuncParams is a trusted contract (decodes into the fresh object BlankParams returned).")
